@@ -237,6 +237,10 @@ def generate(rng, n, tier):
                 off = rng.choice([None, 0.0])
             if not _offset_loop_terminates(pairs):
                 pairs = []
+            if off and len(set(j % len(x) if x else j for _, j in pairs)) < len(set((i, j) for i, j in pairs)):
+                # an entry that tracks two different partners: with a non-zero offset both relations hold only if the partners (entries that are
+                # not selected) already agree - no target set to land in; such masks are meaningful without an offset only
+                off = rng.choice([None, 0.0])
             c.update(mask=pairs, offset=off, x=x)
         elif t == "unique" and rng.random() < 0.3:
             kind = rng.choice(["none", "int", "float", "dict"])
